@@ -2,7 +2,7 @@
 tie: T-gen (cxx2coq on SegmentedArraySettings<sqrt|cnst, L> with L symbolic, UIntMath<size_t|uint32_t>::Log2) +
 translator validation against the real functions; L1 model of the capacity operations corresponded with the real
 container; oracle = the property predicate evaluated on the real code (index enumeration + address stability)."""
-import os, sys
+import os, sys, bisect
 
 GEN = ['gen_log2_64.json', 'gen_log2_32.json', 'gen_segsqrt.json', 'gen_segcnst.json']
 M64 = 2 ** 64
@@ -74,15 +74,16 @@ def gen_index_cases(ctx, scale):
             pts.add(top - d)
         for _ in range(40 * scale):
             pts.add(r.below(2 ** r.range(1, 64)))
+        for d in range(0, 2 ** min(L, 3) + 2):
+            pts.add(top + d); pts.add(M64 - 1 - d)
         for i in sorted(pts):
-            if 0 <= i < top:
+            if not (0 <= i < M64): continue
+            # proved range (round 2): everything except (L = 0, SIZE_MAX); GetItemCount additionally not (L = 63, i >= 2^63: shift by 64 = UB)
+            if (L == 0 and i == M64 - 1) or (L == 63 and i >= 2 ** 63):
+                cases.append('sqs %d %d' % (L, i))    # outside the proved range: translator validation of GetSegItemIndexes only
+            else:
                 cases.append('sq %d %d' % (L, i))
-            elif top <= i < M64:
-                cases.append('sqs %d %d' % (L, i))    # outside the proved range: translator validation only
-            if 0 <= i < M64:
-                cases.append('cn %d %d' % (L, i))
-        for d in range(0, 4):
-            if top + d < M64: cases.append('sqs %d %d' % (L, top + d))
+            cases.append('cn %d %d' % (L, i))
     # inverse direction on slots
     for L in (0, 1, 3, 5, 8, 16, 33):
         for _ in range(150 * scale):
@@ -99,14 +100,12 @@ HIST_L = {'sq': [0, 1, 2, 3, 4], 'cn': [0, 1, 2, 3, 5]}
 
 def gen_hist_cases(ctx, scale):
     r = ctx.rng; cases = []
-    for n in range(260 * scale):
-        F = r.choice(['sq', 'cn']); L = r.choice(HIST_L[F])
-        limit = r.choice([40, 200, 1500, 6000]) if L <= 2 or F == 'cn' else r.choice([200, 1500, 6000])
+    def one_history(F, L, limit, nops):
         bnd = boundaries(F, L, limit * 2)
         def near():
             b = r.choice(bnd); return max(0, b + r.choice([-2, -1, 0, 0, 1, 2]))
         cnt = 0; ops = []
-        for _ in range(r.range(6, 36)):
+        for _ in range(nops):
             t = r.below(100)
             if t < 30:
                 k = r.choice([1, 1, 2, 3, r.range(1, 40), max(1, near() - cnt)]); k = min(k, max(1, limit - cnt))
@@ -127,17 +126,41 @@ def gen_hist_cases(ctx, scale):
                 ops.append('c'); cnt = 0
             elif t < 88:
                 ops.append('C'); cnt = 0
-            elif t < 93:
+            elif t < 91:
                 if cnt < limit:
                     ops.append('i%d' % r.below(cnt + 1)); cnt += 1
-            elif t < 97:
+            elif t < 94:
                 if cnt > 0:
                     ops.append('d%d' % r.below(cnt)); cnt -= 1
+            elif t < 96:     # Insert(index, n copies) / Insert(index, begin, end): both branches of ArrayShifter::InsertNogrow
+                m = r.choice([0, 1, 2, r.range(1, 40), max(0, near() - cnt)]); m = min(m, max(0, limit - cnt))
+                ops.append('%s%d:%d' % (r.choice('IJ'), r.choice([0, cnt, r.below(cnt + 1), max(0, cnt - r.below(m + 2))]), m)); cnt += m
+            elif t < 98:
+                pidx = r.below(cnt + 1); m = min(r.choice([0, 1, r.below(cnt - pidx + 1), cnt - pidx]), cnt - pidx)
+                ops.append('D%d:%d' % (pidx, m)); cnt -= m
             else:
-                ops.append('n')    # AddBackNogrow when there is room (count unknown to the generator: harness decides)
-                # keep the generator's count in sync: conservatively recompute in oracle; here assume no change
-                ops.pop()
+                ops.append(None)   # filter-Remove: the count afterwards depends on the values; stop generating count-dependent ops
+                break
+        if ops and ops[-1] is None:
+            ops[-1] = 'F%d' % r.choice([2, 3, 5, 7]); ops += ['a%d' % r.range(1, 30), 'k']
+        return ops, cnt
+    for n in range(260 * scale):
+        F = r.choice(['sq', 'cn']); L = r.choice(HIST_L[F])
+        limit = r.choice([40, 200, 1500, 6000]) if L <= 2 or F == 'cn' else r.choice([200, 1500, 6000])
+        ops, _ = one_history(F, L, limit, r.range(6, 36))
         cases.append('hist %s %d %s' % (F, L, ' '.join(ops)))
+    # two arrays: ops on either, move / swap / copy between them
+    for n in range(90 * scale):
+        F = r.choice(['sq', 'cn']); L = r.choice([0, 1, 2, 3, 5]); limit = r.choice([40, 300, 2000])
+        toks = []
+        for _ in range(r.range(3, 9)):
+            which = r.choice('AB')
+            ops, _ = one_history(F, L, limit, r.range(1, 5))
+            toks += ['%s.%s' % (which, o) for o in ops if o[0] not in 'F']
+            toks.append(r.choice(['mAB', 'mBA', 'MAB', 'MBA', 'xAB', 'cAB', 'cBA', 'kAB', 'kBA']))
+            # the generator does not track counts across world ops: restart each array's script from a known state
+            toks += ['A.s%d' % r.below(limit), 'B.s%d' % r.below(limit)] if r.chance(1, 3) else []
+        cases.append('hist2 %s %d %s' % (F, L, ' '.join(toks)))
     return cases
 
 # ------------------------------------------------------------------ the property predicate on the real code's outputs
@@ -163,51 +186,61 @@ def oracle(ctx, cases, lines):
                 elif cnt & (cnt - 1) or cnt < 2 ** L: bad.append((c, out, 'GetItemCount(%d) = %d is not a power of two >= 2^L' % (s, cnt)))
                 if i >= 2 ** 32: ctx.nontrivial.add(c)
             elif w[0] in ('sqr', 'cnr'):
-                L, lo, n = int(w[1]), int(w[2]), int(w[3])
-                recs = [tuple(map(int, x.split())) for x in out.split(';') if x]
-                if len(recs) != n:
-                    bad.append((c, out[:200], 'range output has %d records, expected %d' % (len(recs), n))); continue
-                key = (w[0], L)
-                prev = ctx._c16_last.get(key)     # (index, seg, item, cnt) of the previous block's last record
-                for t, (s, j, idx, cnt) in enumerate(recs):
-                    i = lo + t
+                # run-length form: "s j idx cnt xLEN;" = LEN consecutive indexes, same s and cnt, j and idx increasing by 1
+                L, lo, n = int(w[1]), int(w[2]), int(w[3]); F = w[0][:2]
+                runs = []
+                for x in out.split(';'):
+                    if x:
+                        f = x.split(); runs.append((int(f[0]), int(f[1]), int(f[2]), int(f[3]), int(f[4][1:])))
+                if sum(r[4] for r in runs) != n:
+                    bad.append((c, out[:200], 'range output covers %d indexes, expected %d' % (sum(r[4] for r in runs), n))); continue
+                key = (F, L)
+                prev = ctx._c16_last.get(key)     # (index, seg, item, cnt) of the last index of the previous run
+                if lo == 0:
+                    ctx._c16_bnd[key] = boundaries(F, L, 2 ** 25)
+                bnd = ctx._c16_bnd.get(key)
+                i = lo
+                for (s, j, idx, cnt, ln) in runs:
                     why = None
                     if idx != i: why = 'GetIndex(GetSegItemIndexes(%d)) = %d' % (i, idx)
-                    elif not (j < cnt): why = 'itemIndex %d >= GetItemCount(%d) = %d at index %d' % (j, s, cnt, i)
+                    elif not (j + ln - 1 < cnt): why = 'itemIndex %d >= GetItemCount(%d) = %d at index %d' % (j + ln - 1, s, cnt, i + ln - 1)
+                    elif cnt & (cnt - 1) or cnt < 2 ** L: why = 'GetItemCount(%d) = %d is not a power of two >= 2^L' % (s, cnt)
                     elif i == 0 and (s, j) != (0, 0): why = 'index 0 is slot (%d,%d)' % (s, j)
                     elif prev is not None and prev[0] == i - 1:
                         ps, pj, pc = prev[1], prev[2], prev[3]
                         exp = (ps, pj + 1) if pj + 1 < pc else (ps + 1, 0)
                         if (s, j) != exp: why = 'index %d is slot (%d,%d) but index %d was slot (%d,%d) of a segment of %d' % (i, s, j, i - 1, ps, pj, pc)
-                    if why:
-                        bad.append(('%s %d %d' % (w[0][:2], L, i), '%d %d %d %d' % (s, j, idx, cnt), why)); break
-                    prev = (i, s, j, cnt)
-                ctx._c16_last[key] = prev
-                # independent layout: segment boundaries of the documented size sequence
-                if lo == 0:
-                    ctx._c16_bnd[key] = boundaries(w[0][:2], L, 2 ** 25)
-                bnd = ctx._c16_bnd.get(key)
-                if bnd:
-                    import bisect
-                    for t in (0, n // 2, n - 1):
-                        i = lo + t; s, j, idx, cnt = recs[t]
+                    if why is None and bnd and i < bnd[-2]:
+                        # independent layout: the documented size sequence
                         es = bisect.bisect_right(bnd, i) - 1
-                        if es + 1 < len(bnd) and (s, j, cnt) != (es, i - bnd[es], bnd[es + 1] - bnd[es]):
-                            bad.append(('%s %d %d' % (w[0][:2], L, i), '%d %d %d %d' % recs[t], 'layout: index %d expected slot (%d,%d) of %d' % (i, es, i - bnd[es], bnd[es + 1] - bnd[es])))
+                        if (s, j, cnt) != (es, i - bnd[es], bnd[es + 1] - bnd[es]):
+                            why = 'layout: index %d expected slot (%d,%d) of %d' % (i, es, i - bnd[es], bnd[es + 1] - bnd[es])
+                    if why:
+                        bad.append(('%s %d %d' % (F, L, i), '%d %d %d %d' % (s, j, idx, cnt), why)); break
+                    prev = (i + ln - 1, s, j + ln - 1, cnt); i += ln
+                ctx._c16_last[key] = prev
                 ctx.nontrivial.add(c)
             elif w[0] in ('sqx', 'cnx'):
                 L, s, j = int(w[1]), int(w[2]), int(w[3]); i, s2, j2 = map(int, out.split())
                 if (s2, j2) != (s, j): bad.append((c, out, 'GetSegItemIndexes(GetIndex(%d,%d)) = (%d,%d)' % (s, j, s2, j2)))
-            elif w[0] == 'hist':
+            elif w[0] in ('hist', 'hist2'):
                 if 'FAIL' in out or not out.strip():
                     bad.append((c, out[-200:], 'history on the real container: ' + (out.split('FAIL:')[-1] if 'FAIL' in out else 'no output')))
-                else:
+                elif w[0] == 'hist':
                     toks = out.split(); grew = False; prev = (0, 0)
                     for tk in toks:
                         cnt, sc, cap, top = tk.split('/')
                         if int(sc) > prev[1] and prev[0] > 0: grew = True
                         prev = (int(cnt), int(sc))
                     if grew: ctx.nontrivial.add(c)
+                else:
+                    # non-trivial: a move / swap / copy whose source held elements
+                    toks = out.split(); ops = w[3:]; prevA = prevB = 0
+                    for o, tk in zip(ops, toks):
+                        a, b = tk.split('|'); ca, cb = int(a.split('/')[0]), int(b.split('/')[0])
+                        if len(o) == 3 and o[1] != '.' and ((o[1] == 'A' and prevA > 0) or (o[1] == 'B' and prevB > 0)):
+                            ctx.nontrivial.add(c)
+                        prevA, prevB = ca, cb
         except (ValueError, IndexError):
             bad.append((c, out[:200], 'unparsable implementation output'))
     return bad
@@ -256,7 +289,7 @@ def run(ctx):
                     'extraction: ExtrOcamlBasic only (+ Extraction Blacklist List String: a module renaming), OCaml 4.13.1, zarith for decimal I/O only',
                     'g++ 12 -std=c++17, harness reaches private members via #define private public; tracking MemManager in the harness']
     ctx.assumptions += ['0 <= logInitialItemCount < 64 (shift counts of size_t)',
-                        'sqrt sizing: index < 2^64 - 2^logInitialItemCount (index1 = (index >> L) + 1 must not wrap; only L = 0, index = SIZE_MAX is excluded for GetSegItemIndexes itself)',
+                        'sqrt sizing: every size_t index except (L = 0, index = SIZE_MAX) where index1 = (index >> L) + 1 wraps (theorem C16_sqrt_top_L0_aliases states what happens there); GetItemCount additionally not (L = 63, index >= 2^63: shift by 64)',
                         'L1 capacity model: element construction/destruction and allocation failure are not modelled (no-throw histories)']
     ctx.regen(GEN)
     ctx.prove()
@@ -280,12 +313,23 @@ def run(ctx):
             ctx.violation('L1 capacity model and the real container disagree', {'case': c, 'impl': a[-300:], 'model': b[-300:],
                           'cmd': 'echo "%s" | build/C16/harness' % c}, found_input=True)
         for (i, c, a, b) in mism[:3]:
-            if c[2] == 'r':   # narrow a range line down to the first differing index
-                ra, rb = a.split(';'), b.split(';')
-                for t in range(max(len(ra), len(rb))):
-                    x = ra[t] if t < len(ra) else '<missing>'; y = rb[t] if t < len(rb) else '<missing>'
-                    if x != y:
-                        c = '%s %s %d' % (c[:2], c.split()[1], int(c.split()[2]) + t); a, b = x, y; break
+            if c[2] == 'r':   # narrow a range line down to the first index at which the two run lists differ
+                def expand(txt):
+                    o = []
+                    for x in txt.split(';'):
+                        f = x.split()
+                        if len(f) == 5:
+                            o += [(int(f[0]), int(f[1]) + t, int(f[2]) + t, int(f[3])) for t in range(int(f[4][1:]))]
+                    return o
+                try:
+                    ea, eb = expand(a), expand(b)
+                    for t in range(max(len(ea), len(eb))):
+                        x = ea[t] if t < len(ea) else '<missing>'; y = eb[t] if t < len(eb) else '<missing>'
+                        if x != y:
+                            c = '%s %s %d' % (c[:2], c.split()[1], int(c.split()[2]) + t)
+                            a, b = ' '.join(map(str, x)) if x != '<missing>' else x, ' '.join(map(str, y)) if y != '<missing>' else y; break
+                except ValueError:
+                    pass
             ctx.violation('generated model and implementation disagree', {'case': c, 'impl': a[:300], 'model': b[:300],
                           'cmd': 'echo "%s" | build/C16/harness' % c}, found_input=True)
     # the property predicate on the real code (always; bigger generator when a stage broke = search stage)
@@ -308,12 +352,13 @@ def run(ctx):
         ctx.violation(why, {'case': c, 'impl_output': out, 'cmd': 'echo "%s" | build/C16/harness' % c}, found_input=True)
     for c in (icases[::max(1, len(icases) // 3)][:3] + hcases[:3]):
         ctx.add_sample(c[:300])
-    kinds = ('lg64', 'lg32', 'sqr', 'cnr', 'sqs', 'sqx', 'cnx', 'sq ', 'cn ', 'hist sq', 'hist cn')
+    kinds = ('lg64', 'lg32', 'sqr', 'cnr', 'sqs', 'sqx', 'cnx', 'sq ', 'cn ', 'hist sq', 'hist cn', 'hist2 sq', 'hist2 cn')
     ctx.coverage['input_distribution'] = {k.strip(): sum(1 for c in cases if c.startswith(k)) for k in kinds}
     ops = {}
     for c in hcases:
         for o in c.split()[3:]:
-            ops[o[0]] = ops.get(o[0], 0) + 1
+            k = o[2] if (len(o) > 2 and o[1] == '.') else (o[0] + o[0] if len(o) == 3 and o[1] in 'AB' else o[0])
+            ops[k] = ops.get(k, 0) + 1
     ctx.coverage['history_op_histogram'] = ops
     ctx.coverage['histories_with_growth_while_nonempty'] = sum(1 for c in ctx.nontrivial if c.startswith('hist'))
     return ctx.finish(rule=RULE)
@@ -321,6 +366,7 @@ def run(ctx):
 RULE = ('cases = Log2 on every 2^k/2^k+-1/random; exhaustive index prefixes 0..2^20 (sqrt L=0, cnst L=0,5; 2^13..2^16 for other L; '
         '2^24 thorough) as range lines of 1024 consecutive indexes; aimed indexes around every 2^k, every change of logItemCount '
         '(index1 = 2^m), segment starts, and the top of the proved range for L in 0..16,20,31..33,47,48,62,63; inverse direction on random slots; '
-        'random grow/shrink histories on the real container (both sizing functions, L in 0..5) aimed at segment boundaries; '
+        'random grow/shrink/insert/remove histories on the real container (both sizing functions, L in 0..5) aimed at segment boundaries, '
+        'and two-array histories with move / swap / copy; '
         'distinct = distinct case line; non-trivial = a range line (1024 consecutive indexes checked for contiguity), an index >= 2^32, '
-        'or a history in which a segment was added while elements existed')
+        'a history in which a segment was added while elements existed, or a two-array history with a move/swap/copy from a non-empty array')
